@@ -290,6 +290,43 @@ def index_shape(shape, items):
         return Shape(True, tuple(mid + new_right)), amap
 
 
+def index_axis_map(items, axis):
+    """new negative position of old negative `axis` after basic indexing with an Ellipsis
+    (valid for any rank); None if the axis is removed / partially sliced / not determinable"""
+    if any(k[0] in ('adv', 'unk') for k in items):
+        return None
+    n_ell = sum(1 for k in items if k[0] == 'ell')
+    if n_ell != 1:
+        return None
+    pos = next(j for j, k in enumerate(items) if k[0] == 'ell')
+    right = items[pos + 1:]
+    n_right = sum(1 for k in right if k[0] in ('int', 'slice'))
+    out_len = sum(1 for k in right if k[0] in ('none', 'slice'))
+    if -axis > n_right:
+        # axis is covered by the ellipsis: shifted by the change in the number of trailing axes
+        # (only valid if the left part does not consume it, which we cannot know without the rank: accept
+        # when the left part is empty or consists of None only)
+        left = items[:pos]
+        if any(k[0] != 'none' for k in left):
+            return None
+        return axis + n_right - out_len
+    old = -n_right
+    new = -out_len
+    for k in right:
+        if k[0] == 'none':
+            new += 1
+        elif k[0] == 'int':
+            if old == axis:
+                return None
+            old += 1
+        else:
+            if old == axis:
+                return new if k[1] else None
+            old += 1
+            new += 1
+    return None
+
+
 def subscript(ev, t, b, i, ctx):
     deps = b.deps | i.deps
     # python constants
@@ -355,6 +392,10 @@ def subscript(ev, t, b, i, ctx):
         norm = 'RAW'
         if isinstance(b.norm, tuple) and amap is not None and b.norm[1] in amap:
             norm = ('UNIT', amap[b.norm[1]])
+        elif isinstance(b.norm, tuple) and basic:
+            na = index_axis_map(items, b.norm[1])
+            if na is not None:
+                norm = ('UNIT', na)
     if basic:
         alias = b.alias
     elif advanced:
@@ -522,13 +563,22 @@ def h_maximum(ev, name, pos, kw, ctx, t):
         sign = 'NONNEG'
     shape = broadcast_shape(a.shape, b.shape) if (a.shape is not None and b.shape is not None) else (a.shape if (b.kind is not TOP and b.kind <= {'scalar'}) or b.shape is None else b.shape)
     ncore = None
+    # max(||x||, floor) is an exact normaliser only for a floor far below the supported dynamic range
     if a.ncore is not None and b.sign == 'POS':
-        ncore = a.ncore
+        ncore = a.ncore if tiny_like(b) else (a.ncore[0], a.ncore[1], False)
     elif b.ncore is not None and a.sign == 'POS':
-        ncore = b.ncore
+        ncore = b.ncore if tiny_like(a) else (b.ncore[0], b.ncore[1], False)
     kind = SCALAR if (a.kind is not TOP and b.kind is not TOP and a.kind <= {'scalar'} and b.kind <= {'scalar'}) else ARR
     return AV(kind=kind, deps=a.deps | b.deps, shape=shape, sign=sign, ncore=ncore, norm='RAW' if (tracked(a) or tracked(b)) else None,
               dtype='real' if real_dtype(a) and real_dtype(b) else None, meta=('maximum', a, b))
+
+
+def tiny_like(v):
+    if v.meta is not None and isinstance(v.meta, tuple) and v.meta and v.meta[0] == 'finfo.tiny':
+        return True
+    if v.is_const and isinstance(v.cval, (int, float)) and 0 < v.cval <= 1e-150:
+        return True
+    return False
 
 
 def h_minimum(ev, name, pos, kw, ctx, t):
